@@ -36,7 +36,7 @@ theorem Fr_sendRequest (a : Agent) (now : Nat) (l r : Cand) (uc : Bool) (nom : O
   have h2 : Fr a { (a.invalidatePending now) with
       nextTid := (a.invalidatePending now).nextTid + 1,
       pending := (a.invalidatePending now).pending ++
-        [{ tid := 2 * a.nextTid + a.tag, dest := r.addr, net := r.net, useCand := uc, nom := nom, ts := now }] } := by
+        [{ tid := 2 * a.nextTid + a.tag, src := l.addr, dest := r.addr, net := r.net, useCand := uc, nom := nom, ts := now }] } := by
     fr_same
   split
   · exact h2.trans (by fr_mod)
